@@ -106,6 +106,10 @@ class Repo:
 class NotLiteral(Exception):
     pass
 
+class _FoldedNone:
+    """A folded call that legitimately returned None (hooks use None for 'not handled')."""
+FOLDED_NONE = _FoldedNone()
+
 _BIN = {ast.Add: lambda a, b: a + b, ast.Sub: lambda a, b: a - b, ast.Mult: lambda a, b: a * b,
         ast.FloorDiv: lambda a, b: a // b, ast.Mod: lambda a, b: a % b, ast.BitAnd: lambda a, b: a & b,
         ast.BitOr: lambda a, b: a | b, ast.BitXor: lambda a, b: a ^ b, ast.LShift: lambda a, b: a << b,
@@ -233,7 +237,25 @@ class Lit:
                     args = [self.ev(a) for a in n.args]
                     kw = {k.arg: self.ev(k.value) for k in n.keywords}
                     return getattr(base, n.func.attr)(*args, **kw)
+            if isinstance(n.func, ast.Attribute) and n.func.attr in ('append', 'extend', 'pop', 'clear', 'insert', 'setdefault', 'update', 'write', 'add', 'discard', 'remove', 'copy'):
+                try:
+                    base = self.ev(n.func.value)
+                except NotLiteral:
+                    base = None
+                if isinstance(base, (list, dict, set, bytearray)) or getattr(base, '_sa_fold_ok', False):
+                    args = [self.ev(a) for a in n.args]
+                    return getattr(base, n.func.attr)(*args)
             return self._opaque(n)
+        if isinstance(n, ast.Attribute):
+            try:
+                base = self._opaque(n)
+                return base
+            except NotLiteral:
+                pass
+            base = self.ev(n.value)
+            if getattr(base, '_sa_fold_ok', False) and hasattr(base, n.attr):
+                return getattr(base, n.attr)
+            raise NotLiteral('attribute ' + n.attr)
         if isinstance(n, ast.Starred):
             raise NotLiteral('starred')
         return self._opaque(n)
@@ -280,6 +302,8 @@ class Lit:
                 v = self.opaque(n, self)
             else:
                 v = self.opaque(n)
+            if v is FOLDED_NONE:
+                return None
             if v is not None:
                 return v
         raise NotLiteral(ast.dump(n)[:80])
@@ -351,8 +375,23 @@ class ModuleFold:
         elif isinstance(st, ast.If):
             for s in (st.body if self.lit().ev(st.test) else st.orelse):
                 self.stmt(s)
-        elif isinstance(st, (ast.Pass, ast.Expr)):
+        elif isinstance(st, ast.Pass):
             pass
+        elif isinstance(st, ast.Expr):
+            if isinstance(st.value, ast.Call):
+                f_ = st.value.func
+                if isinstance(f_, ast.Name) and f_.id in ('print',):
+                    return
+                self.lit().ev(st.value)       # mutating call on a folded container (append/extend/...) or a folded function
+        elif isinstance(st, ast.With):
+            for item in st.items:
+                v = self.lit().ev(item.context_expr)
+                if item.optional_vars is not None:
+                    self.store(item.optional_vars, v)
+            for s in st.body:
+                self.stmt(s)
+        elif isinstance(st, (ast.Break, ast.Continue)):
+            raise NotLiteral('break/continue')
         elif isinstance(st, ast.Raise):
             name = ast.unparse(st.exc).split('(')[0] if st.exc is not None else 'ValueError'
             raise {'ValueError': ValueError, 'KeyError': KeyError, 'TypeError': TypeError, 'IndexError': IndexError}.get(name, ValueError)('raised by folded code')
@@ -437,9 +476,11 @@ class ModFolder:
                 except NotLiteral:
                     return None
                 if isinstance(target, tuple) and len(target) == 2 and target[0] == 'f':
-                    return self.call(target[1], [lit.ev(a) for a in n.args])
+                    r = self.call(target[1], [lit.ev(a) for a in n.args])
+                    return FOLDED_NONE if r is None else r
                 if isinstance(target, tuple) and len(target) == 3 and target[0] == 'fx':
-                    return ModFolder(self.repo, target[1]).call(target[2], [lit.ev(a) for a in n.args])
+                    r = ModFolder(self.repo, target[1]).call(target[2], [lit.ev(a) for a in n.args])
+                    return FOLDED_NONE if r is None else r
             return None
         f.wants_lit = True
         return f
@@ -492,7 +533,8 @@ class ObjFolder:
                 if target is not None:
                     args = [lit.ev(a) for a in n.args]
                     kw = {k.arg: lit.ev(k.value) for k in n.keywords}
-                    return self.call(target, args, kw)
+                    r = self.call(target, args, kw)
+                    return FOLDED_NONE if r is None else r
             return None
         f.wants_lit = True
         return f
